@@ -415,3 +415,27 @@ VP_HARNESS(h_dup)
   x->values[0] ^= 1; VP_CHECK(a->values[0] == (x->values[0] ^ 1), "dup: value storage independent");
   VP_WITNESS_IF(hetero, "a heterogeneous structure duplicated");
 }
+
+/* ---- C17: a consulting call on a refreshed topology writes nothing ---------------------------------------------------------- */
+/* Both structures claim OBJS_VALID (the state hwloc_topology_refresh leaves) while the object table says that some objects
+ * are gone: a reader that refreshed anyway would drop them (observable, also natively). Concurrent readers are race-free
+ * only if none of them writes: every field of the internal structures must be exactly as before the call. */
+VP_HARNESS(h_reader_pure)
+{
+  mk_objs(0); mk_topology();
+  for (unsigned i = 0; i < NB; i++) VP_ASSUME(FO[i].type == HWLOC_OBJ_CORE);
+  struct hwloc_internal_distances_s *a = mk_dist(0, 0), *b = mk_dist(1, 0);
+  link2(a, b);
+  a->iflags = b->iflags = HWLOC_INTERNAL_DIST_FLAG_OBJS_VALID;
+  vp_exists = (unsigned) vp_in_range(0, (1 << NB) - 1);          /* stale on purpose */
+  unsigned long kind = vp_in64();
+  unsigned nr = (unsigned) vp_in_range(0, 3);
+  struct hwloc_distances_s *out[3] = { NULL, NULL, NULL };
+  hwloc_obj_t *ao = a->objs, *bo = b->objs; uint64_t *av = a->values; uint64_t v0 = a->values[0], v1 = b->values[NB * NB - 1];
+  int r = hwloc_distances_get(&T, &nr, out, kind, 0);
+  VP_CHECK(r == 0, "get succeeds on a refreshed topology");
+  VP_CHECK(a->iflags == HWLOC_INTERNAL_DIST_FLAG_OBJS_VALID && b->iflags == HWLOC_INTERNAL_DIST_FLAG_OBJS_VALID && a->nbobjs == NB && b->nbobjs == NB && a->objs == ao && b->objs == bo && a->values == av && a->values[0] == v0 && b->values[NB * NB - 1] == v1, "reader purity: hwloc_distances_get() on a refreshed topology does not touch the internal structures");
+  for (unsigned i = 0; i < NB; i++) VP_CHECK(a->objs[i] == &FO[i] && b->objs[i] == &FO[i], "reader purity: no object pointer of a valid structure is re-resolved by a reader");
+  VP_CHECK(T.first_dist == a && T.last_dist == b && a->next == b && vp_reconnects == 0, "reader purity: the list and the tree are untouched");
+  VP_WITNESS_IF(nr == 2 && vp_exists == 0, "two structures returned while every object is stale");
+}
